@@ -109,6 +109,21 @@ PROPS.update({
             "real": REAL, "stubs": STUBS, "assumptions": COMMON_ASSUME},
 })
 
+PROPS.update({
+    "C15": {"level": "exploration", "budget": {"quick": 240, "thorough": 3000},
+            "level_text": "configuration sweep: every disk size of the tier's list (dense from the smallest size the server formats, dense around multiples of the bitmap-block capacity, plus a stride) is formatted on the simulated disk; region arithmetic through the server's own layout functions, fsck and conservation on the fresh image, the disk is filled through WRITE until nothing more can be allocated and the allocated set must be the whole data region, everything is deleted and the free counts must return, with a restart from the disk image after the format and when full; the list is enumerated completely",
+            "rule": "one evaluation = one disk size: format, layout checks, fsck, fill to the last block through NFS WRITEs, restart from the image (fresh and full), delete all, reclaim check. The i-th run examines the i-th size of the list; all sizes of the list are examined (exhaustive for the list). distinct = distinct sizes; non-trivial = the server accepts the size",
+            "state_measure": "distinct disk sizes examined",
+            "real": REAL, "stubs": STUBS, "assumptions": COMMON_ASSUME + ["sizes outside the tier's list are not examined (quick: smallest..+300 dense, stride 61 to +3000, 32768+-9, a few larger; thorough: smallest..+400, 32768k+-40 for k=1,2, stride)"]},
+})
+
+PROPS.update({
+    "C11": seq("exploration",
+               "seeded search over histories that interleave the checked C02 workload with adversarial requests: all 22 NFS procedures with handles of length 0..64 and arbitrary content (plausible inode numbers with wrong generations, numbers beyond the table), names of 0..300 arbitrary bytes, offsets/counts/sizes/cookies at 0, block boundaries, 2^31, 2^32+-1, 2^63, 2^64-k, counts that disagree with the data supplied, cookies never issued; the 6 MOUNT procedures; and, in half of the runs, through the real RPC server loop: byte-level mutations of well-formed call messages (truncation, corrupted length words and discriminants, bit flips, trailing garbage, wrong program/version/procedure) and transport faults (short frames, missing last-fragment bit, oversized lengths, dropped connections). Every request must be answered or, if undecodable, dropped without harm: no panic in any task, no blocked handler, no deadlock; afterwards the checked workload must still agree with the reference model",
+               "adversarial requests and mutated RPC messages in between; coverage-guided fuzzing is a different technique and is not used (generation is seeded and structural).",
+               quick=75, death_is_violation=True),
+})
+
 NOT_APPLICABLE = {
     "C16": "pure function of its input (XDR encode/decode round-trip and a static dispatch table): no schedule, clock, fault or interleaving for a simulator to decide; see DESIGN.md section 6",
 }
